@@ -20,5 +20,5 @@ Reqs == IF IOEnv.KVV_KIND = "pair"
 VARIABLE x
 Init == x = 0
 Next == UNCHANGED x
-ASSUME JsonSerialize(IOEnv.KVV_OUT, SetToSeq(Reqs))
+ASSUME JsonSerialize(IOEnv.KVV_OUT, [keys |-> KeyOrder, reqs |-> SetToSeq(Reqs)])
 =============================================================================
